@@ -763,3 +763,59 @@ MUTANTS += [
       edits=[(HP+"response.rs", "pub enum Response {\n    Announce(AnnounceResponse),\n    Scrape(ScrapeResponse),\n    Failure(FailureResponse),\n}", "pub enum Response {\n    Failure(FailureResponse),\n    Announce(AnnounceResponse),\n    Scrape(ScrapeResponse),\n}"),
              (HP+"response.rs", "pub struct FailureResponse {\n    #[serde(rename = \"failure reason\")]", "pub struct FailureResponse {\n    #[serde(rename = \"failure reason\", default)]")]),
 ]
+
+HCN = HC + "connection.rs"
+MUTANTS += [
+ dict(id="C16-content-length-plus-one", props=["C16"], expect={"C16": r"framing#(content_length_value|trailer_blank_digits)"},
+      edits=[(HCN, "        let content_len = body_len + 2;", "        let content_len = body_len + 1;")]),
+ dict(id="C16-blank-after-digits", props=["C16"], expect={"C16": r"framing#trailer_blank_digits"},
+      edits=[(HCN, """        {
+            let start = RESPONSE_HEADER_A.len();
+            let end = start + RESPONSE_HEADER_B.len();
+
+            self.response_buffer[start..end].copy_from_slice(RESPONSE_HEADER_B);
+        }
+
+        // Set content-len header value
+
+        {
+            let mut buf = ::itoa::Buffer::new();
+            let content_len_bytes = buf.format(content_len).as_bytes();
+
+            let start = RESPONSE_HEADER_A.len();
+            let end = start + content_len_bytes.len();
+
+            self.response_buffer[start..end].copy_from_slice(content_len_bytes);
+        }
+""", """        {
+            let mut buf = ::itoa::Buffer::new();
+            let content_len_bytes = buf.format(content_len).as_bytes();
+
+            let start = RESPONSE_HEADER_A.len();
+            let end = start + content_len_bytes.len();
+
+            self.response_buffer[start..end].copy_from_slice(content_len_bytes);
+        }
+        if content_len > 99_999_999 {
+            let start = RESPONSE_HEADER_A.len();
+            let end = start + RESPONSE_HEADER_B.len();
+
+            self.response_buffer[start..end].copy_from_slice(RESPONSE_HEADER_B);
+        }
+""")]),
+ dict(id="C16-announce-routed-by-second-byte", props=["C16"], expect={"C16": r"routing#(function|announce)"},
+      edits=[(HCN, "    (info_hash.0[0] as usize) % config.swarm_workers", "    (info_hash.0[1] as usize) % config.swarm_workers")]),
+ dict(id="C16-scrape-take-dropped", props=["C16"], expect={"C16": r"scrape#truncated_before_fanout"},
+      edits=[(HCN, "                for info_hash in info_hashes.into_iter().take(max_scrape_torrents) {", "                let _ = max_scrape_torrents;\n                for info_hash in info_hashes.into_iter() {")]),
+ dict(id="C16-send-without-trailer", props=["C16"], expect={"C16": r"framing#bytes_sent"},
+      edits=[(HCN, "            .write(&self.response_buffer[..position])", "            .write(&self.response_buffer[..position - 2])")]),
+ dict(id="C16-announce-to-worker-zero-when-single-socket", props=["C16"], expect={"C16": r"routing#announce"},
+      edits=[(HCN, "                    let consumer_index = calculate_request_consumer_index(&self.config, info_hash);\n\n                    // Only fails when receiver is closed\n                    self.request_senders\n                        .send_to(consumer_index, request)",
+              "                    let consumer_index = if self.config.socket_workers == 1 { 0 } else { calculate_request_consumer_index(&self.config, info_hash) };\n\n                    // Only fails when receiver is closed\n                    self.request_senders\n                        .send_to(consumer_index, request)")]),
+ dict(id="C16-keep-alive-ignored", props=["C16"], expect={"C16": r"loop#keep_alive_exit"},
+      edits=[(HCN, "            if !self.config.network.keep_alive {\n                break;\n            }", "            if !self.config.network.keep_alive && self.config.network.runs_behind_reverse_proxy {\n                break;\n            }")]),
+ dict(id="C16-header-cells-4", props=["C16"], expect={"C16": r"framing#(digit_cells|header_text|trailer_blank_digits)"},
+      edits=[(HCN, "const RESPONSE_HEADER_B: &[u8] = b\"        \";", "const RESPONSE_HEADER_B: &[u8] = b\"   \";")]),
+ dict(id="C16-pending-count-hashes", props=["C16"], expect={"C16": r"routing#pending_count"},
+      edits=[(HCN, "                let pending_worker_responses = info_hashes_by_worker.len();", "                let pending_worker_responses = info_hashes_by_worker.values().map(|v| v.len()).sum::<usize>().min(info_hashes_by_worker.len() + 1);")]),
+]
